@@ -20,7 +20,14 @@ def make_zip(rng, path, nmembers=None):
     members = []
     n = rng.randint(0, 9) if nmembers is None else nmembers
     names = rng.sample(MEMBER_NAMES, min(n, len(MEMBER_NAMES)))
-    with zipfile.ZipFile(path, "w") as z:
+    # one archive in four does not begin with its first member: a launcher script or a loader stands in front (executable jars and
+    # wars, self-extracting archives); an archive is found from its end, and such files are read by every zip tool
+    stub = rng.choice([b"", b"", b"", b"#!/bin/sh\nexec java -jar \"$0\" \"$@\"\n", b"MZ" + b"\x90" * 510])
+    glued = bool(stub) and rng.random() < 0.5      # `cat stub plain.zip`: the offsets inside are those of plain.zip
+    fh = open(path, "wb")
+    if not glued:
+        fh.write(stub)
+    with fh, zipfile.ZipFile(fh, "w") as z:
         for nm in names:
             isdir = nm.endswith("/")
             size = 0 if isdir else rng.choice([0, 1, 5, 9, 10, 100, 999, 1000, 5000])
@@ -32,6 +39,11 @@ def make_zip(rng, path, nmembers=None):
             zi.compress_type = rng.choice([zipfile.ZIP_STORED, zipfile.ZIP_DEFLATED])
             z.writestr(zi, b"m" * size)
             members.append({"name": nm, "size": size, "mode": fmt | perm, "date": zi.date_time, "is_dir": isdir})
+    if glued:
+        with open(path, "rb") as f:
+            plain = f.read()
+        with open(path, "wb") as f:
+            f.write(stub + plain)
     return members
 
 
